@@ -114,6 +114,7 @@ type State struct {
 	compBound map[string]Term // per component: alloc counter when it was last written or havoc'd
 	pendingBound []string
 	baseAlloc Term
+	phiOverride map[*ssa.Phi]Val // phi values fixed by an if-converted diamond
 	visited  map[*ssa.Range]Term // ghost: keys already yielded by a map range
 	lastRange *ssa.Range
 }
@@ -166,6 +167,12 @@ func (st *State) clone() *State {
 		unfolded: make(map[string]bool, len(st.unfolded)),
 		havocEpochBound: st.havocEpochBound,
 		lastRange: st.lastRange,
+	}
+	if len(st.phiOverride) > 0 {
+		n.phiOverride = map[*ssa.Phi]Val{}
+		for k, v := range st.phiOverride {
+			n.phiOverride[k] = v
+		}
 	}
 	for k, v := range st.visited {
 		n.visited[k] = v
@@ -245,6 +252,9 @@ type Exec struct {
 	pendingLocals func(name string) (tv, bool)
 	constGlobals []string
 	usedAxioms map[string]bool
+	diamondStop *ssa.BasicBlock
+	diamondEnds *[]*State
+	merged      int
 	unfolded map[string]bool // opaque spec function applications whose defining equation was emitted
 	reified map[string]*Ptr // symbolic field addresses that were turned into reference terms
 }
